@@ -77,6 +77,7 @@ type G struct {
 	spawns int
 	lib    bool // spawned by library code (not by harness code)
 	site   string
+	vc     []int
 }
 
 type State struct {
@@ -102,6 +103,14 @@ func (in *Interp) newG(parent *G, fv *FuncV, args []Value, site string) *G {
 		g.name = fmt.Sprintf("%s.%d", parent.name, parent.spawns)
 	}
 	g.site = site
+	if parent != nil {
+		g.vc = append([]int(nil), parent.vc...)
+		in.tick(parent)
+	}
+	for len(g.vc) <= g.num {
+		g.vc = append(g.vc, 0)
+	}
+	g.vc[g.num] = 1
 	in.st.gs = append(in.st.gs, g)
 	in.pushCall(g, fv, args, nil)
 	return g
